@@ -42,6 +42,11 @@
 
 
 /*::cexcerpt::statics_example::begin::*/
+#ifdef EASEL_VERIF
+/* verification hook H1: run-time override of the default page size and of the file-mode choice */
+int esl_verif_buffer_pagesize  = 0;   /* >0: use this page size for every newly opened buffer            */
+int esl_verif_buffer_forcemode = 0;   /* eslBUFFER_ALLFILE | eslBUFFER_MMAP | eslBUFFER_FILE: force mode  */
+#endif
 static int buffer_create           (ESL_BUFFER **ret_bf);
 static int buffer_init_file_mmap   (ESL_BUFFER *bf, esl_pos_t filesize);
 static int buffer_init_file_slurped(ESL_BUFFER *bf, esl_pos_t filesize);
@@ -219,6 +224,18 @@ esl_buffer_OpenFile(const char *filename, ESL_BUFFER **ret_bf)
   if (bf->pagesize < 512)     bf->pagesize = 512;      /* I feel paranoid about st_blksize range not being guaranteed to be sensible */
   if (bf->pagesize > 4194304) bf->pagesize = 4194304;
 #endif  
+#ifdef EASEL_VERIF
+  if (esl_verif_buffer_pagesize > 0) bf->pagesize = esl_verif_buffer_pagesize;
+  if (esl_verif_buffer_forcemode && filesize != -1)
+    {
+      if      (esl_verif_buffer_forcemode == eslBUFFER_ALLFILE) status = buffer_init_file_slurped(bf, filesize);
+      else if (esl_verif_buffer_forcemode == eslBUFFER_MMAP)    status = buffer_init_file_mmap(bf, filesize);
+      else                                                      status = buffer_init_file_basic(bf);
+      if (status != eslOK) goto ERROR;
+      *ret_bf = bf;
+      return status;
+    }
+#endif
 
   if      (filesize != -1 && filesize <= eslBUFFER_SLURPSIZE)  
     { if ((status = buffer_init_file_slurped(bf, filesize)) != eslOK) goto ERROR; }
@@ -1538,6 +1555,9 @@ buffer_create(ESL_BUFFER **ret_bf)
   bf->filename   = NULL;
   bf->cmdline    = NULL;
   bf->pagesize   = eslBUFFER_PAGESIZE;
+#ifdef EASEL_VERIF
+  if (esl_verif_buffer_pagesize > 0) bf->pagesize = esl_verif_buffer_pagesize;
+#endif
   bf->errmsg[0]  = '\0';
   bf->mode_is    = eslBUFFER_UNSET;
 
